@@ -942,6 +942,9 @@ func FromV3SchemaRef(schema *openapi3.SchemaRef, components *openapi3.Components
 	for i, v := range schema.Value.AllOf {
 		v2Schema.AllOf[i], _ = FromV3SchemaRef(v, components)
 	}
+	if d := schema.Value.Discriminator; d != nil {
+		v2Schema.Discriminator = d.PropertyName
+	}
 	if schema.Value.PermitsNull() {
 		schema.Value.Nullable = false
 		if schema.Value.Extensions == nil {
